@@ -450,9 +450,11 @@ func c14RunScenario(rc *runCtx, r *rand.Rand, cl *c14Cluster, pl c14Plan, t *c14
 	var reals []realCol
 	tag := r.IntN(1000)
 	for u := 0; u < pl.nUsers; u++ {
-		user := fmt.Sprintf("u%d-%d", tag, u)
+		// user ids are opaque: some start with a character that hides a directory, marks an option or a comment
+		pre := []string{"", ".", "_", "-", "#"}[(u/2)%5]
+		user := fmt.Sprintf("%su%d-%d", pre, tag, u)
 		if u%2 == 1 { // an id that extends the previous user's id: adjacent record keys, one a prefix of the other
-			user = fmt.Sprintf("u%d-%d%d", tag, u-1, r.IntN(10))
+			user = fmt.Sprintf("%su%d-%d%d", pre, tag, u-1, r.IntN(10))
 		}
 		ncol := 1 + r.IntN(2)
 		for c := 0; c < ncol; c++ {
